@@ -16,7 +16,8 @@ Open Scope list_scope.
 Record jrow := mkJ { j_label : Z; j_ins : bool }.
 Record brow := mkB { b_label : Z; b_from : Z; b_to : Z; b_act : bool; b_w : Z; b_pi : bool }.
 Definition btable := (string * list brow)%type.
-Record tflags := mkF { f_include : bool; f_respect : bool }.
+(* include_X may be a bool or a list of labels (f_only = Some labels: the rows net[X].loc[labels], in that order) *)
+Record tflags := mkF { f_include : bool; f_respect : bool; f_only : option (list Z) }.
 Record net := mkNet {
   n_junctions : list jrow;
   n_tables : list btable;          (* branch component tables in component_list order *)
@@ -42,7 +43,7 @@ Definition union (a b : list Z) : list Z := a ++ filter (fun x => negb (memz x a
 
 Fixpoint flags_of (fl : list (string * tflags)) (t : string) : tflags :=
   match fl with
-  | [] => mkF true true
+  | [] => mkF true true None
   | (k, f) :: r => if String.eqb k t then f else flags_of r t
   end.
 
@@ -59,9 +60,16 @@ Definition row_in (a : args) (n : net) (t : string) (r : brow) : bool :=
   (negb (f_respect (flags_of (a_flags a) t)) || b_act r) &&
   negb (String.eqb t "pipe" && a_rs_valves a && memz (b_label r) (closed_pi_pipes n)).
 
+Definition sel_rows (o : option (list Z)) (rows : list brow) : list brow :=
+  match o with
+  | None => rows
+  | Some ls => flat_map (fun l => filter (fun r => Z.eqb (b_label r) l) rows) ls
+  end.
+
 Definition table_edges (a : args) (n : net) (tb : btable) : list edge :=
   if f_include (flags_of (a_flags a) (fst tb))
-  then map (fun r => mkE (b_from r) (b_to r) (fst tb) (b_label r) (b_w r)) (filter (row_in a n (fst tb)) (snd tb))
+  then map (fun r => mkE (b_from r) (b_to r) (fst tb) (b_label r) (b_w r))
+           (filter (row_in a n (fst tb)) (sel_rows (f_only (flags_of (a_flags a) (fst tb))) (snd tb)))
   else [].
 
 Definition raw_edges (a : args) (n : net) : list edge := flat_map (table_edges a n) (n_tables n).
